@@ -245,6 +245,27 @@ struct AtomBox(std::cell::UnsafeCell<AtomicUsize>);
 unsafe impl Sync for AtomBox {}
 unsafe impl Send for AtomBox {}
 
+/// Mutex / RwLock slots: shared access everywhere, plus exclusive access (`get_mut`, `into_inner`)
+/// by main once every other thread was joined
+struct MtxBox(std::cell::UnsafeCell<loom::sync::Mutex<usize>>);
+unsafe impl Sync for MtxBox {}
+unsafe impl Send for MtxBox {}
+impl std::ops::Deref for MtxBox {
+    type Target = loom::sync::Mutex<usize>;
+    fn deref(&self) -> &Self::Target {
+        unsafe { &*self.0.get() }
+    }
+}
+struct RwBox(std::cell::UnsafeCell<loom::sync::RwLock<usize>>);
+unsafe impl Sync for RwBox {}
+unsafe impl Send for RwBox {}
+impl std::ops::Deref for RwBox {
+    type Target = loom::sync::RwLock<usize>;
+    fn deref(&self) -> &Self::Target {
+        unsafe { &*self.0.get() }
+    }
+}
+
 struct CellBox(loom::cell::UnsafeCell<usize>);
 unsafe impl Sync for CellBox {}
 unsafe impl Send for CellBox {}
@@ -282,8 +303,8 @@ unsafe impl Send for SendPtr {}
 struct Objs {
     atomics: Vec<AtomBox>,
     cells: Vec<CellBox>,
-    mutexes: Vec<loom::sync::Mutex<usize>>,
-    rwlocks: Vec<loom::sync::RwLock<usize>>,
+    mutexes: Vec<MtxBox>,
+    rwlocks: Vec<RwBox>,
     condvars: Vec<loom::sync::Condvar>,
     notifies: Vec<loom::sync::Notify>,
     tx: Option<StdMutex<loom::sync::mpsc::Sender<usize>>>,
@@ -453,6 +474,28 @@ impl<'a> Th<'a> {
                 Some(**g as i64)
             }
             Get { m } => Some(**self.guards[m as usize].as_ref().expect("Get without guard") as i64),
+            MtxGetMut { m } => {
+                let mx = unsafe { &mut *o.mutexes[m as usize].0.get() };
+                Some(*mx.get_mut().unwrap() as i64)
+            }
+            MtxIntoInner { m } => {
+                let slot = unsafe { &mut *o.mutexes[m as usize].0.get() };
+                let old = std::mem::replace(slot, loom::sync::Mutex::new(0));
+                let v = old.into_inner().unwrap();
+                *slot = loom::sync::Mutex::new(v);
+                Some(v as i64)
+            }
+            RwGetMut { r } => {
+                let rw = unsafe { &mut *o.rwlocks[r as usize].0.get() };
+                Some(*rw.get_mut().unwrap() as i64)
+            }
+            RwIntoInner { r } => {
+                let slot = unsafe { &mut *o.rwlocks[r as usize].0.get() };
+                let old = std::mem::replace(slot, loom::sync::RwLock::new(0));
+                let v = old.into_inner().unwrap();
+                *slot = loom::sync::RwLock::new(v);
+                Some(v as i64)
+            }
             Read { r } => {
                 let g = o.rwlocks[r as usize].read().unwrap();
                 let v = *g as i64;
@@ -806,8 +849,8 @@ fn build_objs(sh: &StdArc<Shared>) -> Objs {
     let o = Objs {
         atomics: (0..p.n_atomics()).map(|_| AtomBox(std::cell::UnsafeCell::new(AtomicUsize::new(0)))).collect(),
         cells: (0..p.n_cells()).map(|_| CellBox(loom::cell::UnsafeCell::new(0))).collect(),
-        mutexes: (0..p.n_mutexes()).map(|_| loom::sync::Mutex::new(0)).collect(),
-        rwlocks: (0..p.n_rwlocks()).map(|_| loom::sync::RwLock::new(0)).collect(),
+        mutexes: (0..p.n_mutexes()).map(|_| MtxBox(std::cell::UnsafeCell::new(loom::sync::Mutex::new(0)))).collect(),
+        rwlocks: (0..p.n_rwlocks()).map(|_| RwBox(std::cell::UnsafeCell::new(loom::sync::RwLock::new(0)))).collect(),
         condvars: (0..p.n_condvars()).map(|_| loom::sync::Condvar::new()).collect(),
         notifies: (0..p.n_notifies()).map(|_| loom::sync::Notify::new()).collect(),
         tx,
